@@ -69,6 +69,10 @@ def main():
                 results[name] = res
                 m = json.load(open(src + '/meta.json'))
                 m['rechecked'] = {'repo_head': head, 'checks': res}
+                if mode == 'harmless' and 'apply' not in res and m.get('confirmed', {}).get('check_exit', 0) is None:
+                    noisy0 = sorted(p for p, r in res.items() if r['exit'] != 0)        # the first run of the checks against this change
+                    m['confirmed']['check_exit'] = 1 if noisy0 else 0
+                    m['confirmed']['first_run_alarms'] = noisy0
                 if mode == 'seeds' and 'apply' not in res and m.get('confirmed', {}).get('check_exit', 0) is None:
                     r0 = list(res.values())[0]          # the first run of the check against this change (confirm_seed.sh with NOCHECK=1)
                     m['confirmed']['check_exit'], m['confirmed']['check_output_tail'] = r0['exit'], r0['tail']
